@@ -108,7 +108,9 @@ pub fn bound(field: &str, kind: &str) -> bool {
         return false;
     }
     field.starts_with("expected.")
-        || field.starts_with("parents")
+        // a parent ref is (worldline, tick, commit id); the commit id is what the chain binds —
+        // coordinates that resolve to a stored entry with the SAME commit id are interchangeable
+        || (field.starts_with("parents") && field != "parents.worldline_id" && field != "parents.worldline_tick")
         || field == "worldline_id"
         || field == "worldline_tick"
         || field == "patch.header.policy_id"
@@ -236,6 +238,12 @@ impl St {
     fn get(&self) -> Rt {
         self.0.lock().unwrap().clone()
     }
+    /// Full `Debug` fingerprint of runtime + provenance (same content as `Rt::fingerprint`,
+    /// streamed into a hasher).
+    fn fp(&self) -> Vec<u8> {
+        let g = self.0.lock().unwrap();
+        verify::debug_fp(&(&g.runtime, &g.provenance)).to_vec()
+    }
 }
 impl Clone for St {
     fn clone(&self) -> St {
@@ -261,7 +269,7 @@ fn generate(r: &Report) -> Generated {
         let st = mc::bfs::bfs(
             St::new(Rt::new(cfg.0, cfg.1)),
             depth,
-            |s: &St| s.get().fingerprint(),
+            |s: &St| s.fp(),
             |_s, _p: &[Op]| {
                 let mut v = Vec::new();
                 for w in 1..=cfg.0 {
@@ -354,7 +362,7 @@ fn run_history(r: &Report, all: &[History], idx: usize, prm: &Params) -> Acc {
     phases::suffix(&mut acc, h, &base, prm);
     let scripted = h.label.starts_with("scripted:");
     let t1 = t0.elapsed().as_secs_f64();
-    if prm.thorough || scripted || idx % 16 == 0 {
+    if prm.thorough || scripted || idx % 32 == 0 {
         phases::retained(&mut acc, h, &base, prm, r);
     }
     if std::env::var("C05_TIMING").is_ok() {
